@@ -161,7 +161,7 @@ def extract_instance(sched, flavour, sim_time, tasks, workers, workload, res_nam
                      [cs.runtime.to(US).time, rvec(cs.resources._resource_vector.items(), res_names)],
                      t.remaining_time.to(US).time]
         elif t.state == TaskState.SCHEDULED:
-            state = ["scheduled"]
+            state = ["scheduled", t.remaining_time.to(US).time]
         else:
             state = ["free"]
         tg = workload.get_task_graph(t.task_graph)
@@ -443,7 +443,13 @@ def run_probes(pr, inst, spec):
             pairs = [(i, q) for i, t in enumerate(tasks) for q in t["parents"]
                      if t["state"][0] != "running" and i in by_task and (4, i) in pr.names]
             rng.shuffle(pairs)
-            for i, q in pairs[:nmax]:
+
+            def preferred(pq):      # parents SCHEDULED earlier whose remaining time differs from their slowest runtime first
+                st = tasks[pq[1]]["state"]
+                return 0 if (st[0] == "scheduled" and len(st) > 1
+                             and st[1] != max(x[0] for x in tasks[pq[1]]["strats"])) else 1
+            pairs.sort(key=preferred)
+            for i, q in pairs[:int(spec.get("max_pairs", nmax))]:
                 placed = [([(1, k) for k in by_task[i]], "=", 1)]
                 if tasks[q]["state"][0] == "running":
                     add(kind, "minimise start of %s (running parent %s)" % (tasks[i]["name"], tasks[q]["name"]),
